@@ -187,6 +187,30 @@ pub fn contract_nested_capped(cap: usize, at: usize, w1: [u8; 3], l1: usize, w2:
     }
 }
 
+/// SAMPLED contract (C19) of the defensive check in the `unsafe fn advance`: an advance that would move the initialized mark past
+/// the end of the view -- also after part of it was already filled -- must be refused (panic), never accepted; one that fits moves
+/// the mark by exactly that amount
+#[cfg(not(kani))]
+pub fn contract_advance_guard(cap: usize, written: usize, n: usize) {
+    let mut store = [0u8; 8];
+    let fits = written + n <= cap;
+    let returned = std::cell::Cell::new(false);
+    let r = std::panic::catch_unwind(std::panic::AssertUnwindSafe(|| {
+        with_buffer(&mut store[..cap], |mut b: BufferRef| {
+            b.write(&[7u8; 8][..written]).unwrap();
+            unsafe { b.advance(n) };
+            returned.set(true);
+            if fits { b.initialized().len() } else { 0 }
+        })
+    }));
+    assert!(returned.get() == fits, "advance past the end of the buffer was accepted, or one inside it refused");
+    if let Ok(len) = r {
+        if fits {
+            assert!(len == written + n);
+        }
+    }
+}
+
 pub mod proofs {
     use super::draw;
     use super::draw::harness;
@@ -243,5 +267,13 @@ pub mod proofs {
         draw::assume(cap <= 4 && at <= cap && l1 <= 3 && l2 <= 3);
         draw::reached();
         contract_nested_capped(cap, at, w1, l1, w2, l2);
+    });
+    #[cfg(not(kani))]
+    harness!(sampled_buffer_advance_guard, unwind = 1, {
+        let cap = draw::usize_le(8);
+        let written = draw::usize_le(cap);
+        let n = draw::usize_le(9);
+        draw::reached();
+        contract_advance_guard(cap, written, n);
     });
 }
